@@ -75,6 +75,10 @@ func nativeRun(eng *Engine, items []replayItem) (map[string]replayResult, error)
 		ov := map[string]string{filepath.Join(repoDir, rel, "zz_verif_replay_test.go"): testFile}
 		// harness sources: written out from the in-memory overlay
 		for path := range eng.overlay {
+			if g, ok := materialiseGenerated(tmp, path, len(ov)+100*pi); ok { // suite-generated source (gen.go)
+				ov[path] = g
+				continue
+			}
 			src := filepath.Join(verifDir, "harness", strings.TrimPrefix(path, repoDir+"/"))
 			ov[path] = src
 		}
@@ -132,7 +136,11 @@ func replayOnly(file string) int {
 		return 2
 	}
 	pkg, _ := splitEntry(f.Harness)
-	eng, err := LoadEngine([]string{vsPkg, pkg}, filepath.Join(verifDir, "harness"))
+	pats, gens := []string{vsPkg, pkg}, []string(nil)
+	if s := suiteOfHarness(f.Harness); s != nil && len(s.Generate) > 0 { // generated sources are needed to compile the harness (gen.go)
+		pats, gens = append([]string{vsPkg}, s.Packages...), s.Generate
+	}
+	eng, err := loadWithGenerators(pats, gens, false)
 	if err != nil {
 		fmt.Fprintln(os.Stderr, err)
 		return 2
